@@ -60,6 +60,7 @@ def run_tasks(tasks, base_spec, workdir, nproc, hard_limit_s=None):
       tpath = os.path.join(workdir, f"task{i}.json")
       opath = os.path.join(workdir, f"out{i}.json")
       epath = os.path.join(workdir, f"err{i}.log")
+      task = dict(task, trace_path=os.path.join(workdir, f"current{i}.json"))
       with open(tpath, "w") as f:
         json.dump(task, f)
       ef = open(epath, "w")
@@ -77,8 +78,15 @@ def run_tasks(tasks, base_spec, workdir, nproc, hard_limit_s=None):
           p.kill()
           p.wait()
           ef.close()
+          last = ""
+          try:
+            with open(os.path.join(workdir, f"current{i}.json")) as f:
+              last = f.read()[:1500]
+          except OSError:
+            pass
           results[i] = {"fatal": f"worker exceeded the hard time limit of {hard_limit_s:.0f}s and was killed "
-                                 f"(task {tasks[i].get('shard', {}).get('name')})", "task": tasks[i], "timeout": True}
+                                 f"(task {tasks[i].get('shard', {}).get('name')}); last case handed to check(): {last}",
+                        "task": tasks[i], "timeout": True}
           continue
         still.append((i, p, opath, epath, ef, started))
         continue
